@@ -70,6 +70,25 @@ def run(prog: Program, res: Result, tier: str) -> None:
                         why = "the zero-scale replacement is not applied exactly when some scale is (close to) zero"
         elif isinstance(ex, ast.Call):
             ok = replaced(ex, norm(ex.args[2])) if len(ex.args) == 3 else False
+        if not ok and isinstance(den, ast.Name):
+            # the same shape stated on the variable itself (the earlier value may be any merge of definitions):
+            #   <defs P of scale> ; if np.any(Z(scale)): scale = np.where(Z(scale), 1, scale) ; ... / scale
+            ds = flow.reaching(den.id, dn)
+            fixes = [d for d in ds if d.kind == "assign" and isinstance(d.value, ast.Call) and dotted(d.value.func) == "np.where" and len(d.value.args) == 3
+                     and norm(d.value.args[2]) == den.id]
+            prior = [d for d in ds if d not in fixes]
+            if len(fixes) == 1 and prior:
+                g = parent(fixes[0].stmt)
+                if isinstance(g, ast.If) and not g.orelse and fixes[0].stmt in g.body:
+                    gn = cfg.node_for(g)
+                    anyz = g.test
+                    zarg = anyz.args[0] if isinstance(anyz, ast.Call) and dotted(anyz.func) in ("np.any", "np.sometrue") and len(anyz.args) == 1 else None
+                    zx = flow.expand(zarg, gn, stop={den.id}) if zarg is not None else None
+                    wx = flow.expand(fixes[0].value, fixes[0].node, stop={den.id})
+                    same_value = {id(d) for d in flow.reaching(den.id, gn)} == {id(d) for d in prior}
+                    ok = zx is not None and zero_test(zx, den.id) and replaced(wx, den.id) and same_value and cfg.dominates(gn, dn)
+                    if not ok:
+                        why = "the zero-scale replacement is not np.where(<scale is zero>, 1, scale) under if np.any(<scale is zero>) on the value that is divided by"
         if ok:
             res.ok("R1", ez, dv, "zero (or tiny) scales are replaced by 1 before the division; other paths have no zero scale", key=key)
         else:
@@ -132,7 +151,8 @@ def run(prog: Program, res: Result, tier: str) -> None:
     pcs = _pcs(flow_of(es))
     direct = set()
     for r_ in [s_ for s_ in body_walk(es.node) if isinstance(s_, ast.Return) and s_.value is not None]:
-        if _holds(pcs, r_, "method == 'std'") is not None and canon(r_.value) == canon("np.std(data, axis=axis, keepdims=keepdims, dtype=np.float64)"):
+        from ..pathcond import selected_by as _selected_by
+        if _selected_by(pcs, r_, "method", "std") is not None and canon(r_.value) == canon("np.std(data, axis=axis, keepdims=keepdims, dtype=np.float64)"):
             direct.add("std")
     missing = [n for n in scale_names if n not in impl and n not in direct]
     undefined = [f for f in impl.values() if not prog.has_func(S, f or "?")]
@@ -153,7 +173,8 @@ def run(prog: Program, res: Result, tier: str) -> None:
     found = {}
     ok = True
     for r_ in rets_l:
-        names_here = [n for n in loc_names if _holds(pcl, r_, f"method == '{n}'") is not None]
+        from ..pathcond import selected_by as _selected_by2
+        names_here = [n for n in loc_names if _selected_by2(pcl, r_, "method", n) is not None]
         if len(names_here) != 1:
             ok = False   # a return that is not selected by exactly one method name: unknown names would not raise
             continue
@@ -195,6 +216,8 @@ def run(prog: Program, res: Result, tier: str) -> None:
         arr = c.args[0] if c.args else None
         if ax is None or arr is None or holds(pce, c, "keepdims") is None:
             ok = False
+        elif canon(ax) == canon("tuple(range(data.ndim)) if axis is None else axis"):
+            seen_none = seen_axis = True
         elif holds(pce, c, "axis is None") is not None:
             seen_none = True
             ok = ok and canon(ax) == canon("tuple(range(data.ndim))")
